@@ -342,6 +342,11 @@ func firstLines(s string, n int) string {
 	if len(l) > n {
 		l = append(l[:n], "…")
 	}
+	for i, x := range l {
+		if len(x) > 300 { // the full text is in the replay file
+			l[i] = x[:300] + "…"
+		}
+	}
 	return strings.Join(l, "\n  ")
 }
 
